@@ -124,6 +124,15 @@ func RunOracles(prop string, cases []GenCase, impl map[string]map[string]string)
 					viol(gc, "expired-context-executed", "an already-expired context did not prevent execution: output "+kv["o0"])
 				}
 			}
+		case gc.Role == "replica":
+			// the same script on the same object from the same variables gives the same outcome: when the first
+			// run left no variable behind (the evaluator holds exactly what it held before), the second run of
+			// the same prepared script on the same object starts from the same state
+			if g0, has := kv["g0"]; has && g0 == "" && len(gc.Case.Vars) == 0 {
+				if _, two := kv["r1"]; two && (kv["r1"] != kv["r0"] || kv["o1"] != kv["o0"] || kv["g1"] != g0) {
+					viol(gc, "nondeterminism", fmt.Sprintf("run 0: r=%s o=%s   run 1 (same object, same variables: none): r=%s o=%s g=%s", kv["r0"], kv["o0"], kv["r1"], kv["o1"], kv["g1"]))
+				}
+			}
 		case gc.Role == "repeat":
 			rs := runKeys(kv, "r")
 			for _, rk := range rs[1:] {
